@@ -27,7 +27,7 @@ directive @fold on FIELD
 directive @transform(op: String!) repeatable on FIELD
 type Root { N(max: Int! = 3): [N!]! }
 interface Named { name: String }
-type N implements Named { name: String  value: Int!  next: N  divs: [N!] }
+type N implements Named { name: String  value: Int!  next: N  divs: [N!]  same: Named }
 "#;
 
 /// Same type and field names, different nullability and an extra type: anything cached globally by
@@ -43,7 +43,7 @@ directive @fold on FIELD
 directive @transform(op: String!) repeatable on FIELD
 type Root { N(max: Int! = 2): [N!]! }
 interface Named { name: String! }
-type N implements Named { name: String!  value: Int  next: N  divs: [N!]  extra: Boolean }
+type N implements Named { name: String!  value: Int  next: N  divs: [N!]  extra: Boolean  same: Named! }
 type Other implements Named { name: String! }
 "#;
 
@@ -51,28 +51,56 @@ fn schema_text(which: usize) -> &'static str {
     if which % 2 == 0 { SCHEMA } else { SCHEMA_B }
 }
 
-const QUERIES: [&str; 3] = [
+const QUERIES: [&str; 6] = [
     r#"{ N { __typename @output value @output @filter(op: ">=", value: ["$lo"]) divs @fold @transform(op: "count") @output @filter(op: ">=", value: ["$c"]) { name @output } } }"#,
     r#"{ N(max: 4) { name @filter(op: "has_substring", value: ["$s"]) @output next @optional { v: value @output } } }"#,
     r#"{ N { value @tag(name: "t") @output next @recurse(depth: 2) { w: value @output @filter(op: ">=", value: ["%t"]) } divs @fold @transform(op: "count") @output(name: "nd") @filter(op: ">", value: ["$z"]) { dn: name @output @filter(op: "!=", value: ["$s"]) } } }"#,
+    // regex / not_regex with a *tag* operand (the pattern changes from row to row), inside a fold
+    // and under an optional edge
+    r#"{ N(max: 5) { name @tag(name: "nm") @output divs @fold { dn: name @output @filter(op: "regex", value: ["%nm"]) } next @optional { nx: name @output @filter(op: "not_regex", value: ["%nm"]) } } }"#,
+    // regex with a variable, list operators with variables, ordering and string operators with
+    // tags, a fold-count tag used by a later filter, recursion
+    r#"{ N(max: 5) { name @filter(op: "regex", value: ["$re"]) @tag(name: "nm") value @output @tag(name: "v") @filter(op: "one_of", value: ["$set"]) divs @fold @transform(op: "count") @tag(name: "c") { dv: value @output @filter(op: "<=", value: ["%v"]) name @filter(op: "not_one_of", value: ["$names"]) } next @recurse(depth: 3) { rv: value @output @filter(op: ">", value: ["%c"]) rn: name @output @filter(op: "has_suffix", value: ["$suf"]) @filter(op: "not_has_prefix", value: ["%nm"]) } } }"#,
+    // type coercion through an interface-typed edge, null checks, = / != with a tag and a variable
+    r#"{ N { value @tag(name: "v") same { ... on N { sv: value @output @filter(op: "=", value: ["%v"]) name @filter(op: "is_not_null") @output(name: "sn") __typename @filter(op: "!=", value: ["$tn"]) } } } }"#,
 ];
 
-fn args_for(q: usize) -> BTreeMap<Arc<str>, FieldValue> {
+/// Argument values; `alt` selects a second set so that concurrently running executions of the
+/// same compiled query carry different values (anything cached per variable name, per query or
+/// per process instead of per execution would leak between them).
+fn args_for_alt(q: usize, alt: usize) -> BTreeMap<Arc<str>, FieldValue> {
     let mut m: BTreeMap<Arc<str>, FieldValue> = BTreeMap::new();
+    let a = alt % 2 == 1;
+    let strs = |xs: &[&str]| FieldValue::List(xs.iter().map(|x| FieldValue::String((*x).into())).collect::<Vec<_>>().into());
+    let ints = |xs: &[i64]| FieldValue::List(xs.iter().map(|x| FieldValue::Int64(*x)).collect::<Vec<_>>().into());
     match q {
         0 => {
-            m.insert("lo".into(), FieldValue::Int64(1));
-            m.insert("c".into(), FieldValue::Uint64(1));
+            m.insert("lo".into(), FieldValue::Int64(if a { 2 } else { 1 }));
+            m.insert("c".into(), FieldValue::Uint64(if a { 2 } else { 1 }));
         }
         1 => {
-            m.insert("s".into(), FieldValue::String("n".into()));
+            m.insert("s".into(), FieldValue::String(if a { "o" } else { "n" }.into()));
+        }
+        2 => {
+            m.insert("z".into(), FieldValue::Int64(0));
+            m.insert("s".into(), FieldValue::String(if a { "two" } else { "zero" }.into()));
+        }
+        3 => {}
+        4 => {
+            m.insert("re".into(), FieldValue::String(if a { "e$" } else { "^t|o" }.into()));
+            m.insert("set".into(), if a { ints(&[1, 3, 5]) } else { ints(&[2, 3, 4]) });
+            m.insert("names".into(), if a { strs(&["one"]) } else { strs(&["zero", "two"]) });
+            m.insert("suf".into(), FieldValue::String(if a { "e" } else { "r" }.into()));
         }
         _ => {
-            m.insert("z".into(), FieldValue::Int64(0));
-            m.insert("s".into(), FieldValue::String("zero".into()));
+            m.insert("tn".into(), FieldValue::String(if a { "N" } else { "Other" }.into()));
         }
     }
     m
+}
+
+fn args_for(q: usize) -> BTreeMap<Arc<str>, FieldValue> {
+    args_for_alt(q, 0)
 }
 
 #[derive(Clone, Debug)]
@@ -149,6 +177,7 @@ impl Adapter<'static> for TinyAdapter {
                         }
                     }
                     "divs" => (1..=v.0).filter(|d| v.0 % d == 0).map(V).collect(),
+                    "same" => vec![V(v.0)],
                     _ => unreachable!(),
                 },
             };
@@ -171,8 +200,12 @@ impl Adapter<'static> for TinyAdapter {
 }
 
 fn execute(q: Arc<IndexedQuery>, qi: usize, log: &Arc<Mutex<Vec<u8>>>, tag: u8) -> String {
+    execute_alt(q, qi, 0, log, tag)
+}
+
+fn execute_alt(q: Arc<IndexedQuery>, qi: usize, alt: usize, log: &Arc<Mutex<Vec<u8>>>, tag: u8) -> String {
     let adapter = Arc::new(TinyAdapter { log: log.clone(), tag });
-    let rows: Vec<_> = interpret_ir(adapter, q, Arc::new(args_for(qi))).unwrap().collect();
+    let rows: Vec<_> = interpret_ir(adapter, q, Arc::new(args_for_alt(qi, alt))).unwrap().collect();
     format!("{rows:?}")
 }
 
@@ -207,17 +240,15 @@ fn main() {
     }
     let round1: Vec<(usize, usize, String)> = hs.into_iter().map(|h| h.join().unwrap()).collect();
 
-    // Round 2: one shared Arc<Schema> and shared Arc<IndexedQuery>s that nobody has executed yet.
-    // The very first thing every thread does after the barrier is to execute the shared compiled
-    // queries, so that any lazily initialised state *inside* a compiled query is raced cold.
+    // Round 2: one shared Arc<Schema> and one shared Arc<IndexedQuery> per query, none executed
+    // yet. After the barrier every thread executes all of them in the same order (so the same
+    // compiled query is running on several threads at once, cold), thread 1 with different
+    // argument values than threads 0 and 2; then each compiles a query of its own over the shared
+    // schema and runs it.
     let schema = Arc::new(Schema::parse(SCHEMA).unwrap());
-    // several compiled-query objects, each one a separate cold window
-    let shared: Vec<(usize, Arc<IndexedQuery>)> = (0..8)
-        .map(|k| {
-            let qi = (variant + k) % QUERIES.len();
-            (qi, parse(&schema, QUERIES[qi]).unwrap())
-        })
-        .collect();
+    let order: Vec<usize> = (0..QUERIES.len()).map(|k| (variant + k) % QUERIES.len()).collect();
+    let shared: Vec<(usize, Arc<IndexedQuery>)> =
+        order.iter().map(|qi| (*qi, parse(&schema, QUERIES[*qi]).unwrap())).collect();
     let n_threads = 3;
     let barrier = Arc::new(Barrier::new(n_threads));
     let mut hs = vec![];
@@ -228,9 +259,10 @@ fn main() {
         let shared = shared.clone();
         hs.push(std::thread::spawn(move || {
             b.wait();
+            let alt = t % 2;
             let mut r_shared = String::new();
             for (qi, q) in &shared {
-                r_shared.push_str(&execute(q.clone(), *qi, &log, b'0' + t as u8));
+                r_shared.push_str(&execute_alt(q.clone(), *qi, alt, &log, b'0' + t as u8));
                 r_shared.push('|');
             }
             log.lock().unwrap().push(b'0' + t as u8);
@@ -238,11 +270,11 @@ fn main() {
             let qi = (t + 1 + variant) % QUERIES.len();
             let own = parse(schema.as_ref(), QUERIES[qi]).unwrap();
             log.lock().unwrap().push(b'0' + t as u8);
-            let r_own = execute(own.clone(), qi, &log, b'0' + t as u8);
+            let r_own = execute_alt(own.clone(), qi, alt, &log, b'0' + t as u8);
             let same_ir = format!("{:?}", own.ir_query);
             drop(shared);
             drop(schema);
-            (qi, r_shared, r_own, same_ir)
+            (qi, alt, r_shared, r_own, same_ir)
         }));
     }
     let round2: Vec<_> = hs.into_iter().map(|h| h.join().unwrap()).collect();
@@ -256,16 +288,29 @@ fn main() {
             ok = false;
         }
     }
-    let mut seq_shared = String::new();
-    for (qi, q) in &shared {
-        seq_shared.push_str(&execute(q.clone(), *qi, &seq_log, b'.'));
-        seq_shared.push('|');
+    let mut seq_shared = [String::new(), String::new()];
+    for alt in 0..2 {
+        for (qi, q) in &shared {
+            seq_shared[alt].push_str(&execute_alt(q.clone(), *qi, alt, &seq_log, b'.'));
+            seq_shared[alt].push('|');
+        }
     }
-    for (qi, r_shared, r_own, ir) in &round2 {
+    for (qi, alt, r_shared, r_own, ir) in &round2 {
         let own = parse(schema.as_ref(), QUERIES[*qi]).unwrap();
-        if r_shared != &seq_shared || &execute(own.clone(), *qi, &seq_log, b'.') != r_own || &format!("{:?}", own.ir_query) != ir {
-            println!("MISMATCH round2 query {qi}");
+        if r_shared != &seq_shared[*alt] {
+            println!("MISMATCH round2 shared queries (args set {alt}): concurrent {r_shared} sequential {}", seq_shared[*alt]);
             ok = false;
+        }
+        if &execute_alt(own.clone(), *qi, *alt, &seq_log, b'.') != r_own || &format!("{:?}", own.ir_query) != ir {
+            println!("MISMATCH round2 own query {qi}");
+            ok = false;
+        }
+    }
+    if argv.get(2).map(|s| s.as_str()) == Some("dump") {
+        for alt in 0..2 {
+            for part in seq_shared[alt].split('|') {
+                println!("DUMP args{alt}: {part}");
+            }
         }
     }
     let l = log.lock().unwrap();
